@@ -29,17 +29,30 @@ def wrap_lemma():
             "statement": "M = 65536, any base, any len < M: an ACK number passes (n-(base+1)) % M < len iff it is the wire number of an outstanding block; that block is unique and is the one the sender advances to"}
 
 
-def sender_inductive():
-    d = os.path.join(C.WORK, "proofs-apalache")
+def _inductive(module):
+    d = os.path.join(C.WORK, "proofs-apalache-" + module)
     shutil.rmtree(d, ignore_errors=True)
     os.makedirs(d)
-    shutil.copy(os.path.join(PROOFS, "SenderInd.tla"), d)
-    t0 = time.time()
+    shutil.copy(os.path.join(PROOFS, module + ".tla"), d)
     ok = True
     for args in (["--init=Init", "--length=0"], ["--init=IndInit", "--length=1"]):
-        rc, out = _run(["apalache-mc", "check", "--cinit=ConstInit", "--inv=IndInv", "--out-dir=" + os.path.join(d, "out")] + args + ["SenderInd.tla"], d, 600)
+        rc, out = _run(["apalache-mc", "check", "--cinit=ConstInit", "--inv=IndInv", "--out-dir=" + os.path.join(d, "out")] + args + [module + ".tla"], d, 600)
         ok &= "EXITCODE: OK" in out
     shutil.rmtree(d, ignore_errors=True)
+    return ok
+
+
+def receiver_inductive():
+    t0 = time.time()
+    ok = _inductive("ReceiverInd")
+    return {"tool": "apalache-mc 0.58 (inductive invariant)", "module": "spec/proofs/ReceiverInd.tla", "proved": ok,
+            "wall_s": round(time.time() - t0, 1),
+            "statement": "for every windowsize 1..65535: stored + buffered = accepted, acknowledged <= stored (ACK(k) implies blocks 1..k stored), fewer than W blocks buffered while waiting, retry < 6"}
+
+
+def sender_inductive():
+    t0 = time.time()
+    ok = _inductive("SenderInd")
     return {"tool": "apalache-mc 0.58 (inductive invariant: Init => IndInv, IndInv /\\ Next => IndInv')",
             "module": "spec/proofs/SenderInd.tla", "proved": ok, "wall_s": round(time.time() - t0, 1),
             "statement": "for every windowsize 1..65535, file length >= 1 block and timeout: len <= W, base+len <= NB, eof <=> base+len = NB, len >= 1 while running, retry < 6, done only at NB"}
